@@ -3,6 +3,7 @@ package main
 // C06 (packet integrity) and C07 (limits / occupancy) of packetio.Buffer.
 
 import (
+	"os"
 	"fmt"
 	"go/token"
 	"strings"
@@ -187,50 +188,97 @@ func runC06(c *Ctx) {
 		if adv != 1 {
 			o.Fail(R.Pos(), "expected exactly one advance of head by the packet length in Read, found %d", adv)
 		}
-		nShort := 0
-		for _, in := range findInstrs(R, func(in ssa.Instruction) bool { return returnsGlobalErr(in, "io", "ErrShortBuffer") }) {
-			nShort++
-			ret := in.(*ssa.Return)
-			o.Site(in.Pos(), "return ErrShortBuffer")
-			okEdge := hasFact(in, func(f fact) bool {
-				cm, ok := normCmp(f.Cond, f.Val)
-				return ok && cm.Op == token.LSS && cm.Y == countVal && cm.X == ret.Results[0]
-			})
-			if !okEdge {
-				o.Fail(in.Pos(), "ErrShortBuffer is not returned exactly on the edge copied < length (with copied as the returned count)")
+		// the result, path by path (one loop iteration, helpers inlined): a path that takes a packet returns
+		// (length, nil) when it has established length <= len(buffer) and (len(buffer), ErrShortBuffer) when it has
+		// established len(buffer) < length
+		rpaths, okP := enumIterPathsU(R, 50000)
+		if !okP {
+			o.Undecide("the paths of Read could not be enumerated")
+		}
+		isBufLen := func(v ssa.Value) bool {
+			return isLenOf(v, func(x ssa.Value) bool { return sameOrigin(x, ssa.Value(R.Params[1])) })
+		}
+		nShort, nOK := 0, 0
+		reported := map[retKind]bool{}
+		for pi := range rpaths {
+			pth := &rpaths[pi]
+			ret, isRet := pth.last().(*ssa.Return)
+			if !isRet || pth.Loop || ret.Parent() != R || pth.indexOf(countVal.(ssa.Instruction)) < 0 {
+				continue
 			}
+			e := errorOperand(ret)
+			if e == nil {
+				continue
+			}
+			ev := pth.value(e)
+			short := isGlobalErrValue(ev, "io", "ErrShortBuffer")
+			if os.Getenv("VCHECK_DEBUG") != "" {
+				fmt.Fprintf(os.Stderr, "R5 path ret@%s e=%v ev=%v short=%v\n", p.Pos(ret.Pos()), e, ev, short)
+			}
+			if !short && !isNilConst(ev) {
+				continue
+			}
+			n := pth.value(retValAt(ret, 0)[0])
+			// what the path knows about length vs len(buffer)
+			fits, tooLong := false, false
+			for _, ft := range pth.Conds {
+				cm, ok := normCmp(ft.Cond, ft.Val)
+				if !ok {
+					continue
+				}
+				x, y := pth.value(cm.X), pth.value(cm.Y)
+				switch {
+				case (x == countVal || isConvOf(x, countVal)) && isBufLen(y): // length op len(buf)
+					if cm.Op == token.LEQ || cm.Op == token.LSS || cm.Op == token.EQL {
+						fits = true
+					}
+				case isBufLen(x) && (y == countVal || isConvOf(y, countVal)): // len(buf) op length
+					if cm.Op == token.LSS {
+						tooLong = true
+					}
+					if cm.Op == token.EQL {
+						fits = true
+					}
+				}
+			}
+			if os.Getenv("VCHECK_DEBUG") != "" {
+				fmt.Fprintf(os.Stderr, "R5 path2 short=%v fits=%v tooLong=%v n=%v\n", short, fits, tooLong, n)
+			}
+			if fits && tooLong {
+				continue // contradictory comparisons: not a feasible path
+			}
+			key := retKind{ret, short}
+			if reported[key] && !(short && !tooLong) && !(!short && !fits) {
+				continue
+			}
+			if short {
+				nShort++
+				if !reported[key] {
+					o.Site(ret.Pos(), "return ErrShortBuffer")
+				}
+				if !tooLong {
+					o.Fail(ret.Pos(), "ErrShortBuffer is not returned exactly on the edge copied < length (with copied as the returned count)")
+				} else if !isBufLen(n) {
+					o.Fail(ret.Pos(), "returned byte count is not min(length, len(buffer))")
+				}
+			} else {
+				nOK++
+				if !reported[key] {
+					o.Site(ret.Pos(), "success return")
+				}
+				if !fits {
+					o.Fail(ret.Pos(), "a success return of Read is reachable although fewer bytes than the packet length were copied")
+				} else if !(n == countVal || isConvOf(n, countVal)) {
+					o.Fail(ret.Pos(), "returned byte count is neither the packet length nor its minimum with the buffer length")
+				}
+			}
+			reported[key] = true
 		}
 		if nShort == 0 {
 			o.Fail(R.Pos(), "Read never reports ErrShortBuffer")
 		}
-		for _, in := range findInstrs(R, isSuccessReturn) {
-			ret := in.(*ssa.Return)
-			if !hasFact(in, func(f fact) bool {
-				cm, ok := normCmp(f.Cond, f.Val)
-				return ok && cm.Op == token.LEQ && cm.X == countVal && cm.Y == ret.Results[0]
-			}) {
-				o.Fail(in.Pos(), "a success return of Read is reachable although fewer bytes than the packet length were copied")
-			}
-			o.Site(in.Pos(), "success return")
-		}
-		// copied = min(count, len(packet))
-		for _, in := range findInstrs(R, func(in ssa.Instruction) bool {
-			return isSuccessReturn(in) || returnsGlobalErr(in, "io", "ErrShortBuffer")
-		}) {
-			n := in.(*ssa.Return).Results[0]
-			if ph, ok := n.(*ssa.Phi); ok {
-				okMin := false
-				for _, e := range ph.Edges {
-					if e == countVal {
-						okMin = true
-					}
-				}
-				if !okMin {
-					o.Fail(in.Pos(), "returned byte count is not min(length, len(buffer))")
-				}
-			} else if n != countVal {
-				o.Fail(in.Pos(), "returned byte count is neither the packet length nor its minimum with the buffer length")
-			}
+		if nOK == 0 {
+			o.Fail(R.Pos(), "Read never returns a packet successfully")
 		}
 	}
 
@@ -346,20 +394,40 @@ func runC06(c *Ctx) {
 	if m, inf := maxEventsU(entryPos(W), isReturn, func(in ssa.Instruction) int { return b2i(isInc(in)) }); m > 1 || inf {
 		o.Fail(W.Pos(), "count can be incremented more than once per Write")
 	}
-	// Read: per loop iteration (from lock to unlock) at most one decrement; packet returns must pass one
-	pktRet := func(in ssa.Instruction) bool {
-		return (isSuccessReturn(in) || returnsGlobalErr(in, "io", "ErrShortBuffer"))
-	}
-	if ok, bad := mustPassU(entryPos(R), pktRet, isDec); !ok {
-		o.Fail(bad.Pos(), "Read can return a packet without count--")
-	}
-	for _, d := range findU(R, isDec) {
-		for in := range reachU(posAfter(d), pktRet) {
-			if isDec(in) && in != d {
-				o.Fail(in.Pos(), "count can be decremented twice for one returned packet")
+	// Read, path by path (one loop iteration): exactly one decrement on a path that returns a packet (nil or
+	// ErrShortBuffer), none on any other path
+	if rpaths, okP := enumIterPathsU(R, 50000); !okP {
+		o.Undecide("the paths of Read could not be enumerated")
+	} else {
+		rep := map[ssa.Instruction]bool{}
+		for pi := range rpaths {
+			pth := &rpaths[pi]
+			nDec := 0
+			var dec ssa.Instruction
+			for _, in := range pth.Instrs {
+				if isDec(in) {
+					nDec++
+					dec = in
+				}
 			}
-			if ret, ok := in.(*ssa.Return); ok && !pktRet(ret) {
-				o.Fail(in.Pos(), "after count-- Read returns without delivering the packet (EOF/timeout): a packet is lost")
+			ret, isRet := pth.last().(*ssa.Return)
+			pkt := false
+			if isRet && !pth.Loop && ret.Parent() == R {
+				if e := errorOperand(ret); e != nil {
+					ev := pth.value(e)
+					pkt = isNilConst(ev) || isGlobalErrValue(ev, "io", "ErrShortBuffer")
+				}
+			}
+			switch {
+			case nDec > 1 && !rep[dec]:
+				rep[dec] = true
+				o.Fail(dec.Pos(), "count can be decremented twice for one returned packet")
+			case pkt && nDec == 0 && !rep[ret]:
+				rep[ret] = true
+				o.Fail(ret.Pos(), "Read can return a packet without count--")
+			case !pkt && nDec > 0 && !rep[dec]:
+				rep[dec] = true
+				o.Fail(dec.Pos(), "after count-- Read returns without delivering the packet (EOF/timeout) or goes on waiting: a packet is lost")
 			}
 		}
 	}
@@ -1099,4 +1167,19 @@ func phiBlockOf(v ssa.Value, ret ssa.Instruction) *ssa.BasicBlock {
 		return ph.Block()
 	}
 	return ret.Block()
+}
+
+// isGlobalErrValue: v is the value of the package-level error variable pkg.name.
+func isGlobalErrValue(v ssa.Value, pkgPath, name string) bool {
+	u, ok := v.(*ssa.UnOp)
+	if !ok || u.Op != token.MUL {
+		return false
+	}
+	g, ok := u.X.(*ssa.Global)
+	return ok && g.Name() == name && g.Pkg != nil && (g.Pkg.Pkg.Path() == pkgPath || shortPkg(g.Pkg.Pkg.Path()) == pkgPath)
+}
+
+type retKind struct {
+	ret   ssa.Instruction
+	short bool
 }
